@@ -10,7 +10,7 @@
    Where a statement needs the digest to be collision-free this is an explicit
    premise of that clause. *)
 From Coq Require Import Sorting.Permutation.
-From Oras Require Import Base.Prelude Base.Regex Base.StrCheck Generated.GC19 Model.Pack Proofs.Pack Proofs.PackTime Proofs.PackJson.
+From Oras Require Import Base.Prelude Base.Regex Base.StrCheck Generated.GC19 Model.Pack Proofs.Pack Proofs.PackTime Proofs.PackJson Proofs.PackTie Model.PackEnc Model.PackSha Proofs.PackEnc.
 
 (* The media-type check accepts exactly RFC 6838 section 4.2:
    restricted-name "/" restricted-name, each 1..127 characters. *)
@@ -18,6 +18,99 @@ Theorem C19_media_type_grammar :
   forall s, valid_media_type s = true <-> RFC6838 s.
 Proof. exact media_type_grammar. Qed.
 Print Assumptions C19_media_type_grammar.
+
+(* The order of validations, storage operations and the created step in every function of pack.go,
+   re-read from the source on every run, is the order the model executes. *)
+Theorem C19_call_order_as_in_source :
+  calls_PackManifest = [b "packManifestV1_0"; b "packManifestV1_1"] /\
+  calls_Pack = [b "packManifestV1_1_RC2"; b "packArtifact"] /\
+  calls_packArtifact = [b "ensureAnnotationCreated"; b "pushManifest"] /\
+  calls_packManifestV1_0 =
+    [b "validateMediaType"; b "validateMediaType"; b "pushCustomEmptyConfig"; b "ensureAnnotationCreated"; b "pushManifest"] /\
+  calls_packManifestV1_1_RC2 = [b "pushCustomEmptyConfig"; b "ensureAnnotationCreated"; b "pushManifest"] /\
+  calls_packManifestV1_1 =
+    [b "validateMediaType"; b "validateMediaType"; b "pushIfNotExist"; b "ensureAnnotationCreated"; b "pushIfNotExist"; b "pushManifest"] /\
+  calls_pushIfNotExist = [b "ros.Exists"; b "pusher.Push"] /\
+  calls_pushManifest = [b "json.Marshal"; b "content.NewDescriptorFromBytes"; b "pusher.Push"] /\
+  calls_pushCustomEmptyConfig = [b "content.NewDescriptorFromBytes"; b "pushIfNotExist"] /\
+  calls_ensureAnnotationCreated = [b "validateRFC3339"; b "maps.Copy"; b "time.Now"] /\
+  calls_validateRFC3339 = [b "time.Parse"] /\
+  calls_validateMediaType = [b "mediaTypeRegexp.MatchString"].
+Proof. exact call_order_as_modelled. Qed.
+Print Assumptions C19_call_order_as_in_source.
+
+(* The JSON names, their order and omitempty flags of the structs json.Marshal works from, re-read on
+   every run (spec.Artifact from the repository, the image-spec structs from the module cache at the
+   version of go.mod), are the ones the modelled encoder writes. *)
+Theorem C19_json_struct_tags_as_in_source :
+  Artifact_json_tags =
+    [(b "mediaType", false); (b "artifactType", false); (b "blobs", true); (b "subject", true); (b "annotations", true)] /\
+  Manifest_json_tags =
+    [(b "<embedded specs.Versioned>", false); (b "mediaType", true); (b "artifactType", true); (b "config", false);
+     (b "layers", false); (b "subject", true); (b "annotations", true)] /\
+  Versioned_json_tags = [(b "schemaVersion", false)] /\
+  Descriptor_json_tags =
+    [(b "mediaType", false); (b "digest", false); (b "size", false); (b "urls", true); (b "annotations", true);
+     (b "data", true); (b "platform", true); (b "artifactType", true)] /\
+  Platform_json_tags =
+    [(b "architecture", false); (b "os", false); (b "os.version", true); (b "os.features", true); (b "variant", true)].
+Proof. exact json_tags_as_modelled. Qed.
+Print Assumptions C19_json_struct_tags_as_in_source.
+
+(* Every decision of the modelled functions of pack.go, as source text, re-read on every run. *)
+Theorem C19_decisions_as_in_source :
+  conds_PackManifest =
+    [b "case PackManifestVersion1_0";
+     b "case PackManifestVersion1_1";
+     b "default"] /\
+  conds_Pack =
+    [b "opts.PackImageManifest"] /\
+  conds_packArtifact =
+    [b "artifactType == """"";
+     b "err != nil"] /\
+  conds_packManifestV1_0 =
+    [b "opts.Subject != nil";
+     b "opts.ConfigDescriptor != nil";
+     b "err := validateMediaType(opts.ConfigDescriptor.MediaType); err != nil";
+     b "artifactType == """"";
+     b "err := validateMediaType(artifactType); err != nil";
+     b "err != nil";
+     b "err != nil";
+     b "opts.Layers == nil"] /\
+  conds_packManifestV1_1_RC2 =
+    [b "configMediaType == """"";
+     b "opts.ConfigDescriptor != nil";
+     b "err != nil";
+     b "err != nil";
+     b "layers == nil"] /\
+  conds_packManifestV1_1 =
+    [b "artifactType == """" && (opts.ConfigDescriptor == nil || opts.ConfigDescriptor.MediaType == ocispec.MediaTypeEmptyJSON)";
+     b "artifactType != """"";
+     b "err := validateMediaType(artifactType); err != nil";
+     b "opts.ConfigDescriptor != nil";
+     b "err := validateMediaType(opts.ConfigDescriptor.MediaType); err != nil";
+     b "err := pushIfNotExist(ctx, pusher, configDesc, configBytes); err != nil";
+     b "err != nil";
+     b "len(opts.Layers) == 0";
+     b "!emptyBlobExists";
+     b "err := pushIfNotExist(ctx, pusher, layerDesc, layerData); err != nil"] /\
+  conds_pushIfNotExist =
+    [b "ros, ok := pusher.(content.ReadOnlyStorage); ok";
+     b "err != nil";
+     b "exists";
+     b "err := pusher.Push(ctx, desc, bytes.NewReader(data)); err != nil && !errors.Is(err, errdef.ErrAlreadyExists)"] /\
+  conds_pushManifest =
+    [b "err != nil";
+     b "err := pusher.Push(ctx, manifestDesc, bytes.NewReader(manifestJSON)); err != nil && !errors.Is(err, errdef.ErrAlreadyExists)"] /\
+  conds_pushCustomEmptyConfig =
+    [b "err := pushIfNotExist(ctx, pusher, configDesc, configBytes); err != nil"] /\
+  conds_ensureAnnotationCreated =
+    [b "createdTime, ok := annotations[annotationCreatedKey]; ok";
+     b "err := validateRFC3339(createdTime); err != nil"] /\
+  conds_validateMediaType =
+    [b "!mediaTypeRegexp.MatchString(mediaType)"].
+Proof. exact decisions_as_modelled. Qed.
+Print Assumptions C19_decisions_as_in_source.
 
 (* Every call of PackManifest / Pack ends in exactly one of five ways (rejected before any
    storage operation / malformed created / storage fault while handling "{}" / storage
@@ -38,6 +131,41 @@ Theorem C19_reject_before_push :
     exists e, pack marshal H f tc fa s at_ o now = (s, Err e) /\ validation_err e.
 Proof. exact reject_before_push. Qed.
 Print Assumptions C19_reject_before_push.
+
+(* ... with exactly the error the order of the checks in the source gives. *)
+Theorem C19_reject_exact_error :
+  forall (marshal : manifest -> str) (H : str -> str),
+  forall f tc fa s at_ o now,
+    must_reject f at_ o = true ->
+    pack marshal H f tc fa s at_ o now = (s, Err (reject_err f at_ o)).
+Proof. exact reject_exact. Qed.
+Print Assumptions C19_reject_exact_error.
+
+(* Progress: on a target that does not fail (no injected fault; not a file store, which may refuse a
+   taken name) the input alone decides: rejected / malformed created / success.  A valid input succeeds. *)
+Theorem C19_healthy_target_classification :
+  forall (marshal : manifest -> str) (H : str -> str), H empty_json = empty_json_digest ->
+  forall f tc s at_ o now s' r,
+    t_key tc <> KFile ->
+    pack marshal H f tc None s at_ o now = (s', r) ->
+    (must_reject f at_ o = true /\ exists e, r = Err e /\ validation_err e /\ s' = s) \/
+    (must_reject f at_ o = false /\ ensure_created (o_ann o) (created_key f) now = None /\ r = Err EInvalidDateTime) \/
+    (must_reject f at_ o = false /\
+     exists ann, ensure_created (o_ann o) (created_key f) now = Some ann /\
+                 r = Ok (result_desc marshal H f (requested_manifest H f at_ o ann)) (requested_manifest H f at_ o ann)).
+Proof. exact healthy_target_classification. Qed.
+Print Assumptions C19_healthy_target_classification.
+
+Theorem C19_valid_input_succeeds :
+  forall (marshal : manifest -> str) (H : str -> str), H empty_json = empty_json_digest ->
+  forall f tc s at_ o now ann s' r,
+    t_key tc <> KFile ->
+    must_reject f at_ o = false ->
+    ensure_created (o_ann o) (created_key f) now = Some ann ->
+    pack marshal H f tc None s at_ o now = (s', r) ->
+    r = Ok (result_desc marshal H f (requested_manifest H f at_ o ann)) (requested_manifest H f at_ o ann).
+Proof. exact valid_input_succeeds. Qed.
+Print Assumptions C19_valid_input_succeeds.
 
 (* ... and those errors never occur after a storage operation; a success implies that
    nothing had to be rejected. *)
@@ -229,6 +357,28 @@ Theorem C19_created_filled :
 Proof. exact ok_created. Qed.
 Print Assumptions C19_created_filled.
 
+(* The value Pack writes itself -- time.Now().UTC().Format(time.RFC3339), modelled on the broken-down
+   UTC time (format_rfc3339_utc, compared with time.Format on every run) -- always passes Pack's own
+   validation and is RFC 3339, for every valid civil time before the year 10000 ... *)
+Theorem C19_clock_value_accepted :
+  forall y mo d h mi s, civil_ok y mo d h mi s = true -> rfc3339_ok (format_rfc3339_utc y mo d h mi s) = true.
+Proof. exact format_accepted. Qed.
+Print Assumptions C19_clock_value_accepted.
+
+(* ... so "a created timestamp filled in" needs no premise about the timestamp. *)
+Theorem C19_created_filled_by_clock :
+  forall (marshal : manifest -> str) (H : str -> str), H empty_json = empty_json_digest ->
+  forall f tc fa s at_ o y mo d h mi sec s' dd m,
+    civil_ok y mo d h mi sec = true ->
+    pack marshal H f tc fa s at_ o (format_rfc3339_utc y mo d h mi sec) = (s', Ok dd m) ->
+    (exists v, ann_get (created_key f) (m_ann m) = Some v /\ rfc3339_ok v = true /\ RFC3339 v /\
+               (ann_get (created_key f) (o_ann o) = Some v \/
+                ann_get (created_key f) (o_ann o) = None /\ v = format_rfc3339_utc y mo d h mi sec)) /\
+    (forall k, k <> created_key f -> ann_get k (m_ann m) = ann_get k (o_ann o)) /\
+    d_ann dd = m_ann m.
+Proof. exact ok_created_clock. Qed.
+Print Assumptions C19_created_filled_by_clock.
+
 (* Digest, size and media type of the returned descriptor are those of the marshalled
    manifest, and the target holds under that descriptor content with that digest; for a
    collision-free digest, exactly those bytes and that size -- also when the manifest or a
@@ -270,6 +420,42 @@ Theorem C19_closed :
 Proof. exact ok_closed. Qed.
 Print Assumptions C19_closed.
 
+(* "so the result can be copied": with the caller's own descriptors present in the target, the new
+   manifest and every successor of it answer Exists afterwards (source closed one level down from the
+   new root; deeper levels are the caller's graph).  CopyGraph itself stays the harness oracle. *)
+Theorem C19_closed_when_supplied_present :
+  forall (marshal : manifest -> str) (H : str -> str), H empty_json = empty_json_digest ->
+  forall f tc fa s at_ o now s' d m,
+    Forall (fun x => stored (t_key tc) (s_store s) x = true) (supplied o) ->
+    pack marshal H f tc fa s at_ o now = (s', Ok d m) ->
+    stored (t_key tc) (s_store s') d = true /\
+    Forall (fun x => stored (t_key tc) (s_store s') x = true) (successors m).
+Proof. exact ok_closed_when_supplied_present. Qed.
+Print Assumptions C19_closed_when_supplied_present.
+
+(* Histories: any sequence of Pack / PackManifest calls on one target (any mix of packers, inputs,
+   failures, one fault somewhere).  Content-addressed stores stay so, and whatever an earlier call
+   returned is still there after all later calls. *)
+Theorem C19_history_store_stays_content_addressed :
+  forall (marshal : manifest -> str) (H : str -> str), H empty_json = empty_json_digest ->
+  forall tc fa cs s s' rs,
+    run_calls marshal H tc fa s cs = (s', rs) -> wf_store H (s_store s) -> wf_store H (s_store s').
+Proof. exact history_preserves_wf. Qed.
+Print Assumptions C19_history_store_stays_content_addressed.
+
+Theorem C19_history_results_stay :
+  forall (marshal : manifest -> str) (H : str -> str), H empty_json = empty_json_digest ->
+  forall tc fa cs s s' rs d m,
+    wf_store H (s_store s) ->
+    run_calls marshal H tc fa s cs = (s', rs) ->
+    In (Ok d m) rs ->
+    stored (t_key tc) (s_store s') d = true /\
+    d_dg d = H (marshal m) /\
+    exists e, In e (s_store s') /\ same_key (t_key tc) d e = true /\ H (e_bytes e) = H (marshal m) /\
+              ((forall x y, H x = H y -> x = y) -> e_bytes e = marshal m).
+Proof. exact history_results_stay. Qed.
+Print Assumptions C19_history_results_stay.
+
 (* Whatever Pack pushes describes its own content, so content-addressed stores stay so. *)
 Theorem C19_store_stays_content_addressed :
   forall (marshal : manifest -> str) (H : str -> str), H empty_json = empty_json_digest ->
@@ -277,6 +463,64 @@ Theorem C19_store_stays_content_addressed :
     pack marshal H f tc fa s at_ o now = (s', r) -> wf_store H (s_store s) -> wf_store H (s_store s').
 Proof. exact pack_preserves_wf. Qed.
 Print Assumptions C19_store_stays_content_addressed.
+
+(* Which storage operations a call issues: Exists / Push of "{}" for descriptors Pack invented --
+   nothing else -- and then, at most, the push of the manifest. *)
+Theorem C19_operations_of_a_successful_call :
+  forall (marshal : manifest -> str) (H : str -> str), H empty_json = empty_json_digest ->
+  forall f tc fa s at_ o now s' d m,
+    pack marshal H f tc fa s at_ o now = (s', Ok d m) ->
+    exists evs, s_events s' = s_events s ++ evs ++ [EvPush RManifest d (marshal m)] /\
+                Forall (inv_ev H f at_ o) evs.
+Proof. exact ok_operations. Qed.
+Print Assumptions C19_operations_of_a_successful_call.
+
+Theorem C19_operations_of_a_failed_call :
+  forall (marshal : manifest -> str) (H : str -> str), H empty_json = empty_json_digest ->
+  forall f tc fa s at_ o now s' e,
+    pack marshal H f tc fa s at_ o now = (s', Err e) ->
+    exists evs, Forall (inv_ev H f at_ o) evs /\
+                (s_events s' = s_events s ++ evs \/
+                 exists d m, s_events s' = s_events s ++ evs ++ [EvPush RManifest d (marshal m)]).
+Proof. exact err_operations. Qed.
+Print Assumptions C19_operations_of_a_failed_call.
+
+(* Idempotence ("targets that already hold the blobs"): on a memory store, an OCI layout or a registry,
+   with or without Exists and whatever they held before, repeating a successful call with a fixed created
+   annotation returns the same descriptor and manifest and leaves the store exactly as it was. *)
+Theorem C19_repeat_call_changes_nothing :
+  forall (marshal : manifest -> str) (H : str -> str), H empty_json = empty_json_digest ->
+  forall f tc fa1 s at_ o now1 now2 s1 d m v s2 r2,
+    t_key tc <> KFile ->
+    ann_get (created_key f) (o_ann o) = Some v ->
+    pack marshal H f tc fa1 s at_ o now1 = (s1, Ok d m) ->
+    pack marshal H f tc None s1 at_ o now2 = (s2, r2) ->
+    r2 = Ok d m /\ s_store s2 = s_store s1.
+Proof. exact repeat_call_changes_nothing. Qed.
+Print Assumptions C19_repeat_call_changes_nothing.
+
+(* ... also after any number of other calls in between (a history): the repeat returns what the call
+   returned the first time and stores nothing. *)
+Theorem C19_history_repeat_changes_nothing :
+  forall (marshal : manifest -> str) (H : str -> str), H empty_json = empty_json_digest ->
+  forall tc c cs fa1 s s1 d m v sB rsB now' sC r,
+    t_key tc <> KFile ->
+    ann_get (created_key (c_fn c)) (o_ann (c_opts c)) = Some v ->
+    pack marshal H (c_fn c) tc fa1 s (c_at c) (c_opts c) (c_now c) = (s1, Ok d m) ->
+    run_calls marshal H tc None s1 cs = (sB, rsB) ->
+    pack marshal H (c_fn c) tc None sB (c_at c) (c_opts c) now' = (sC, r) ->
+    r = Ok d m /\ s_store sC = s_store sB.
+Proof. exact history_repeat_changes_nothing. Qed.
+Print Assumptions C19_history_repeat_changes_nothing.
+
+(* ... and the premise is needed: a file store refuses to write a named manifest twice. *)
+Theorem C19_repeat_call_file_store_refuted :
+  exists o s1 d m s2,
+    ann_get (created_key FArtifact) (o_ann o) = Some (b "2021-07-01T12:00:00Z") /\
+    pack lossy_marshal lossy_H FArtifact (mkTcfg true KFile) None (init_state []) [] o [50] = (s1, Ok d m) /\
+    pack lossy_marshal lossy_H FArtifact (mkTcfg true KFile) None s1 [] o [50] = (s2, Err EInjected).
+Proof. exact repeat_call_file_store_refuted. Qed.
+Print Assumptions C19_repeat_call_file_store_refuted.
 
 (* Identical inputs with a fixed created annotation give the identical descriptor and
    manifest on any two targets, contents, clocks and fault plans. *)
@@ -296,7 +540,8 @@ Print Assumptions C19_deterministic.
 Theorem C19_annotation_order_independent :
   forall (marshal : manifest -> str) (H : str -> str), H empty_json = empty_json_digest ->
   (forall k c l sj a ann ann',
-      Permutation ann ann' -> marshal (mkManifest k c l sj a ann) = marshal (mkManifest k c l sj a ann')) ->
+      NoDup (map fst ann) -> Permutation ann ann' ->
+      marshal (mkManifest k c l sj a ann) = marshal (mkManifest k c l sj a ann')) ->
   forall f at_ o o' v tc1 fa1 s1 now1 s1' d1 m1 tc2 fa2 s2 now2 s2' d2 m2,
     NoDup (map fst (o_ann o)) -> Permutation (o_ann o) (o_ann o') -> same_but_ann o o' ->
     ann_get (created_key f) (o_ann o) = Some v ->
@@ -307,6 +552,75 @@ Theorem C19_annotation_order_independent :
     m_config m1 = m_config m2 /\ m_layers m1 = m_layers m2 /\ m_subject m1 = m_subject m2 /\ m_at m1 = m_at m2.
 Proof. exact deterministic_perm. Qed.
 Print Assumptions C19_annotation_order_independent.
+
+(* json.Marshal itself is modelled (Model/PackEnc.v json_manifest: struct field order, omitempty,
+   string escaping, sorted map keys, base64; compared byte for byte with the stored manifest on every
+   run).  For it the order independence is a theorem, not a premise: the marshalled bytes, hence digest
+   and size, do not depend on the order in which a map's entries are listed ... *)
+Theorem C19_json_marshal_order_independent :
+  forall k c l sj a ann ann',
+    NoDup (map fst ann) -> Permutation ann ann' ->
+    json_manifest (mkManifest k c l sj a ann) = json_manifest (mkManifest k c l sj a ann').
+Proof. exact json_manifest_perm. Qed.
+Print Assumptions C19_json_marshal_order_independent.
+
+(* For strings the json round trip is a theorem about the modelled encoder: reading back (json_unesc,
+   the inverse escapes of encoding/json) what json.Marshal wrote gives exactly the UTF-8 coercion of
+   the string -- the string itself when it is valid UTF-8 -- and clean strings never collide. *)
+Theorem C19_json_string_roundtrip :
+  forall s, json_unesc (json_esc s) = Some (utf8_san s).
+Proof. exact json_string_roundtrip. Qed.
+Print Assumptions C19_json_string_roundtrip.
+
+Theorem C19_json_string_injective_on_valid_utf8 :
+  forall s t, utf8_san s = s -> utf8_san t = t -> json_esc s = json_esc t -> s = t.
+Proof. exact json_esc_injective_clean. Qed.
+Print Assumptions C19_json_string_injective_on_valid_utf8.
+
+(* The annotations object of a manifest (json_ann: sorted keys, escaped strings) reads back -- read_obj,
+   encoding/json's object syntax on what the encoder produces -- as the requested annotations, coerced to
+   UTF-8, in key order, whatever follows it in the document: for the part of the manifest the caller
+   controls freely the premise json_roundtrip is a theorem. *)
+Theorem C19_json_annotations_roundtrip :
+  forall l rest, read_obj (json_ann l ++ rest) = Some (san_ann (kv_sort l), rest).
+Proof. exact json_ann_roundtrip. Qed.
+Print Assumptions C19_json_annotations_roundtrip.
+
+(* ... so Pack with the real marshalling is independent of the order of the manifest annotations. *)
+Theorem C19_annotation_order_independent_json :
+  forall (H : str -> str), H empty_json = empty_json_digest ->
+  forall f at_ o o' v tc1 fa1 s1 now1 s1' d1 m1 tc2 fa2 s2 now2 s2' d2 m2,
+    NoDup (map fst (o_ann o)) -> Permutation (o_ann o) (o_ann o') -> same_but_ann o o' ->
+    ann_get (created_key f) (o_ann o) = Some v ->
+    pack json_manifest H f tc1 fa1 s1 at_ o now1 = (s1', Ok d1 m1) ->
+    pack json_manifest H f tc2 fa2 s2 at_ o' now2 = (s2', Ok d2 m2) ->
+    d_dg d1 = d_dg d2 /\ d_sz d1 = d_sz d2 /\ d_mt d1 = d_mt d2 /\ d_at d1 = d_at d2 /\
+    d_extra d1 = d_extra d2 /\ Permutation (d_ann d1) (d_ann d2) /\
+    json_manifest m1 = json_manifest m2.
+Proof. exact deterministic_perm_json. Qed.
+Print Assumptions C19_annotation_order_independent_json.
+
+(* The executable instance: json.Marshal (Model/PackEnc.v) and digest.FromBytes (SHA-256, Model/PackSha.v)
+   are both modelled and compared with the implementation (stored bytes, descriptor size and, on a sample,
+   the descriptor digest).  The one hypothesis about the digest holds for it by computation, so every
+   theorem above applies to it; in particular the returned descriptor is computed by the model. *)
+Theorem C19_sha256_of_empty_json :
+  digest_of empty_json = empty_json_digest.
+Proof. exact digest_of_empty_json. Qed.
+Print Assumptions C19_sha256_of_empty_json.
+
+Theorem C19_executable_instance_consistent :
+  forall f tc fa s at_ o now s' d m,
+    pack json_manifest digest_of f tc fa s at_ o now = (s', Ok d m) ->
+    exists ann,
+      ensure_created (o_ann o) (created_key f) now = Some ann /\
+      m = requested_manifest digest_of f at_ o ann /\
+      d_dg d = digest_of (json_manifest m) /\
+      d_sz d = Z.of_nat (length (json_manifest m)) /\
+      d_mt d = kind_mt (m_kind m) /\ d_ann d = m_ann m /\
+      stored (t_key tc) (s_store s') d = true.
+Proof. exact executable_instance_consistent. Qed.
+Print Assumptions C19_executable_instance_consistent.
 
 (* ---------- the hypotheses are satisfiable, the statements are not vacuous ---------- *)
 
@@ -324,11 +638,11 @@ Proof. exact lossy_H_injective. Qed.
 (* a marshal that satisfies marshal_perm (it ignores the annotations' order: it drops them) *)
 Example toy_marshal_perm_satisfiable :
   let mar := fun m : manifest => b "manifest:" ++ m_at m in
-  forall k c l sj a ann ann', Permutation ann ann' ->
+  forall k c l sj a ann ann', NoDup (map fst ann) -> Permutation ann ann' ->
     mar (mkManifest k c l sj a ann) = mar (mkManifest k c l sj a ann').
 Proof. reflexivity. Qed.
 
-Definition ex_layer : desc := mkDesc (b "application/octet-stream") (b "sha256:aa") 5 [] [] [].
+Definition ex_layer : desc := mkDesc (b "application/octet-stream") (b "sha256:aa") 5 [] [] no_extra.
 
 (* v1.1, no config, no layers, target with Exists keyed by digest: Exists, push "{}", push manifest *)
 Example ex_ok :
@@ -389,9 +703,9 @@ Proof. exact ex_file_store. Qed.
 
 Example ex_registry_namespaces :
   stored KNamespace [mkEntry MediaTypeEmptyJSON empty_json_digest 2 empty_json []]
-         (mkDesc MediaTypeImageManifest empty_json_digest 2 [] [] []) = false /\
+         (mkDesc MediaTypeImageManifest empty_json_digest 2 [] [] no_extra) = false /\
   stored KDigest [mkEntry MediaTypeEmptyJSON empty_json_digest 2 empty_json []]
-         (mkDesc MediaTypeImageManifest empty_json_digest 2 [] [] []) = true.
+         (mkDesc MediaTypeImageManifest empty_json_digest 2 [] [] no_extra) = true.
 Proof. exact ex_registry_namespace. Qed.
 
 Example ex_fault :
